@@ -1844,8 +1844,6 @@ func (ls *LState) PCall(nargs, nret int, errfunc *LFunction) (err error) {
 				err = rcv.(*ApiError)
 			}
 			if errfunc != nil {
-				ls.Push(errfunc)
-				ls.Push(err.(*ApiError).Object)
 				ls.Panic = panicWithoutTraceback
 				defer func() {
 					ls.Panic = oldpanic
@@ -1868,6 +1866,9 @@ func (ls *LState) PCall(nargs, nret int, errfunc *LFunction) (err error) {
 						ls.reg.SetTop(base)
 					}
 				}()
+				// pushed under the recovery above: with a full registry these pushes overflow again
+				ls.Push(errfunc)
+				ls.Push(err.(*ApiError).Object)
 				ls.Call(1, 1)
 				err = newApiError(ApiErrorError, ls.Get(-1))
 			} else if len(err.(*ApiError).StackTrace) == 0 {
